@@ -355,7 +355,7 @@ func genL2(rt *rapid.T) L2Case {
 		ID:    rapid.OneOf(rapid.Uint16(), rapid.SampledFrom([]uint16{0, 1, 0xffff, 17, 6})).Draw(rt, "id"),
 		Seed:  1,
 	}
-	total := rapid.OneOf(rapid.IntRange(9, 48), rapid.IntRange(9, 600), rapid.IntRange(9, 4000), rapid.SampledFrom([]int{16, 17, 24, 1480, 2968, 20000})).Draw(rt, "total")
+	total := rapid.OneOf(rapid.IntRange(9, 48), rapid.IntRange(9, 600), rapid.IntRange(9, 4000), rapid.SampledFrom([]int{16, 17, 24, 1480, 2968, 20000, 32776, 40000, 65000})).Draw(rt, "total")
 	base.Total = total
 	dgs := []L2Dgram{base}
 	for len(dgs) < n {
